@@ -2,7 +2,14 @@ import PoxModel.Model.Recoco
 /-! Helper lemmas for C06 (recoco scheduler).  Core only.
 
 Part 1: the placement invariant `Inv` (every live task is in at most one of running / ready / incoming / hub, queue members are
-live, a live sub-task's caller is live, blocked and has no other live sub-task) is preserved by every transition. -/
+        live, a live sub-task's caller is live, blocked and has no other live sub-task) is preserved by every transition.
+Part 2: the hub side changes a task only in `rv` (`HubFr`); program order `PO` (step indices = 0..pc-1, pc bounded by the program).
+Part 3: wake-time accounting `NEA`/`NEx`/`NE` (a timed wait is never resumed early), incl. what the hub scan, the `rets` loops and
+        the virtual select guarantee.
+Part 4: one-cycle theorems (isolation, sub-task return, delivery).
+Part 5: a cycle changes kind/pc/status of the task it runs only (`CycFr`); finished tasks never run again (`dead_stays`).
+Part 6: round-robin order of the ready deque for program tables without sub-task calls (`fair_cycles`).
+Part 7: timers: allowed changes of a timer record (`TStep`), firings in the trace = firing counter (`FI`), kinds never change. -/
 namespace Pox.Recoco
 
 def stL (l : List Task) (t : Nat) : Option Status := (l[t]?).map (·.st)
@@ -2653,5 +2660,1159 @@ theorem resume_receives (cfg : Cfg) (s : St) (t : Nat) (rest : List Nat) (tk : T
       simp [List.getElem?_modify, htk, resumeGen, hprog]
       split <;> rfl
     | timer j => simp [progOf] at hprog
+
+/-! ## Part 5: a cycle changes `ctl` (kind, pc, status) of the task it runs only; finished tasks never run again -/
+
+/-- `l'` extends `l` and agrees with it on `ctl` everywhere except possibly at index `t` -/
+def CtlExt (t : Nat) (l l' : List Task) : Prop :=
+  ∀ u, u ≠ t → u < l.length → (l'.map ctl)[u]? = (l.map ctl)[u]?
+
+theorem CtlExt.refl (t : Nat) (l : List Task) : CtlExt t l l := fun _ _ _ => rfl
+
+theorem CtlExt.trans {t : Nat} {a b c : List Task} (h1 : CtlExt t a b) (h2 : CtlExt t b c) (hlen : a.length ≤ b.length) :
+    CtlExt t a c := fun u hu hl => (h2 u hu (by omega)).trans (h1 u hu hl)
+
+theorem CtlExt.modify_keep {t u : Nat} {l : List Task} {f : Task → Task}
+    (h : ∀ k, (f k).kind = k.kind ∧ (f k).pc = k.pc ∧ (f k).st = k.st) : CtlExt t l (l.modify u f) := by
+  intro v _ _; rw [map_ctl_modify h]
+
+theorem CtlExt.modify_self {t : Nat} {l : List Task} {f : Task → Task} : CtlExt t l (l.modify t f) := by
+  intro v hv _
+  simp only [List.getElem?_map, List.getElem?_modify]
+  have : ¬ t = v := fun e => hv e.symm
+  cases l[v]? <;> simp [this]
+
+theorem CtlExt.push {t : Nat} {l : List Task} {tk : Task} : CtlExt t l (l ++ [tk]) := by
+  intro v _ hl
+  simp only [List.map_append, List.getElem?_append_left (by simpa using hl : v < (l.map ctl).length)]
+
+/-- frame of one scheduler transition with respect to the task it runs -/
+structure CycFr (t : Nat) (s s' : St) : Prop where
+  len : s.tasks.length ≤ s'.tasks.length
+  ctl : CtlExt t s.tasks s'.tasks
+
+theorem CycFr.refl (t : Nat) (s : St) : CycFr t s s := ⟨Nat.le_refl _, CtlExt.refl _ _⟩
+theorem CycFr.trans {t : Nat} {a b c : St} (h1 : CycFr t a b) (h2 : CycFr t b c) : CycFr t a c :=
+  ⟨Nat.le_trans h1.len h2.len, h1.ctl.trans h2.ctl h1.len⟩
+theorem CycFr.of_after {t : Nat} {a b c : St} (h2 : CycFr t b c) (h1 : CycFr t a b) : CycFr t a c := h1.trans h2
+
+theorem CycFr.of_tasks {t : Nat} {s s' : St} (h : s'.tasks = s.tasks) : CycFr t s s' :=
+  ⟨by rw [h]; exact Nat.le_refl _, by rw [h]; exact CtlExt.refl _ _⟩
+
+theorem CycFr.setTask_keep {t u : Nat} {s : St} {f : Task → Task}
+    (h : ∀ k, (f k).kind = k.kind ∧ (f k).pc = k.pc ∧ (f k).st = k.st) : CycFr t s (setTask s u f) :=
+  ⟨by simp, CtlExt.modify_keep h⟩
+
+theorem CycFr.setTask_self {t : Nat} {s : St} {f : Task → Task} : CycFr t s (setTask s t f) :=
+  ⟨by simp, CtlExt.modify_self⟩
+
+theorem CycFr.fastSchedule (t : Nat) (s : St) (u : Nat) (f : Bool) : CycFr t s (fastSchedule s u f) := by
+  unfold Pox.Recoco.fastSchedule; split <;> exact CycFr.of_tasks rfl
+
+theorem CycFr.registerSelect (t : Nat) (s : St) (a b c : List Nat) (d : Option Nat) : CycFr t s (registerSelect s t a b c d) := by
+  unfold Pox.Recoco.registerSelect
+  exact CycFr.trans (CycFr.setTask_self (f := _)) (CycFr.of_tasks rfl)
+
+theorem CycFr.setStatus (t : Nat) (s : St) (x : Status) : CycFr t s (setStatus s t x) := CycFr.setTask_self
+
+theorem CycFr.finishSub (t : Nat) (s : St) (p : Nat) : CycFr t s (finishSub s t p) :=
+  (CycFr.setStatus t s .done).trans (CycFr.fastSchedule t _ p true)
+
+theorem CycFr.doYield (t : Nat) (s : St) (y : Y) : CycFr t s (doYield s t y) := by
+  cases y with
+  | num n => cases n with
+    | zero => exact CycFr.of_tasks rfl
+    | succ n => exact CycFr.registerSelect t s _ _ _ _
+  | block => exact CycFr.refl _ _
+  | sleep d => cases d with
+    | none => exact CycFr.refl _ _
+    | some d =>
+      simp only [Pox.Recoco.doYield]
+      split
+      · exact CycFr.setTask_self.trans (CycFr.fastSchedule t _ t false)
+      · exact CycFr.registerSelect t s _ _ _ _
+  | sleepAbs w =>
+    simp only [Pox.Recoco.doYield]
+    split
+    · exact CycFr.setTask_self.trans (CycFr.fastSchedule t _ t false)
+    · exact CycFr.registerSelect t s _ _ _ _
+  | select r w x to => exact CycFr.registerSelect t s _ _ _ _
+  | recv fd to => exact CycFr.setTask_self.trans (CycFr.registerSelect t _ _ _ _ _)
+  | send fd len to bs => exact CycFr.setTask_self.trans (CycFr.registerSelect t _ _ _ _ _)
+  | exit => exact CycFr.of_tasks rfl
+  | raise n => exact CycFr.refl _ _
+  | again k c =>
+    simp only [Pox.Recoco.doYield]
+    refine CycFr.of_after (CycFr.fastSchedule t _ _ true) ⟨by simp, CtlExt.push⟩
+  | cancel j => exact CycFr.of_tasks rfl
+
+theorem CycFr.topOut (t : Nat) (s : St) (o : Out) : CycFr t s (topOut s t o) := by
+  cases o with
+  | stop => exact CycFr.setStatus t s _
+  | raise e => exact CycFr.setStatus t s _
+  | yield y => exact CycFr.doYield t s y
+
+theorem CycFr.subOut (fx : Bool) (t : Nat) (s : St) (p pc : Nat) (o : Out) : CycFr t s (subOut fx s t p pc o) := by
+  have keep : ∀ (f : Task → Task), (∀ k, (f k).kind = k.kind ∧ (f k).pc = k.pc ∧ (f k).st = k.st) →
+      CycFr t s (Pox.Recoco.finishSub (setTask s p f) t p) :=
+    fun f hf => (CycFr.setTask_keep hf).trans (CycFr.finishSub t _ p)
+  cases o with
+  | raise e => exact keep _ (fun _ => ⟨rfl, rfl, rfl⟩)
+  | stop =>
+    simp only [Pox.Recoco.subOut]
+    split
+    · exact keep _ (fun _ => ⟨rfl, rfl, rfl⟩)
+    · exact CycFr.finishSub t s p
+  | yield y =>
+    simp only [Pox.Recoco.subOut]
+    split
+    · exact CycFr.doYield t s y
+    · split
+      · exact keep _ (fun _ => ⟨rfl, rfl, rfl⟩)
+      · exact keep _ (fun _ => ⟨rfl, rfl, rfl⟩)
+      · refine CycFr.of_after (CycFr.finishSub t _ p) (CycFr.of_after (CycFr.setTask_keep (fun _ => ⟨rfl, rfl, rfl⟩)) (CycFr.of_tasks rfl))
+      · exact CycFr.refl _ _
+
+theorem CycFr.timerStep (t : Nat) (s : St) (j pc : Nat) : CycFr t s (timerStep s t j pc) := by
+  unfold Pox.Recoco.timerStep
+  split
+  · exact CycFr.of_tasks rfl
+  · split
+    · exact CycFr.setStatus t s _
+    · split
+      · exact CycFr.of_tasks rfl
+      · split
+        · exact CycFr.doYield t s _
+        · simp only
+          split
+          · exact CycFr.of_tasks rfl
+          · exact CycFr.of_after (CycFr.doYield t _ _) (CycFr.of_tasks rfl)
+
+theorem CycFr.resumeGen (cfg : Cfg) (t : Nat) (s : St) (tk : Task) (r : Recv) : CycFr t s (resumeGen cfg s t tk r) := by
+  have h0 : CycFr t s { setTask s t (fun k => { k with pc := k.pc + 1, wake := none }) with
+                   trace := s.trace ++ [.step t tk.pc s.now r tk.wake] } :=
+    CycFr.setTask_self.trans (CycFr.of_tasks rfl)
+  unfold Pox.Recoco.resumeGen
+  simp only
+  split
+  · split
+    · refine CycFr.of_after ?_ h0; exact CycFr.of_tasks rfl
+    · refine CycFr.of_after ?_ h0; exact CycFr.topOut t _ _
+  · split
+    · refine CycFr.of_after ?_ h0; exact CycFr.of_tasks rfl
+    · split
+      · refine CycFr.of_after ?_ h0
+        refine CycFr.of_after (CycFr.subOut _ t _ _ _ _) ?_
+        exact CycFr.setTask_keep (fun _ => ⟨rfl, rfl, rfl⟩)
+      · refine CycFr.of_after ?_ h0; exact CycFr.subOut _ t _ _ _ _
+  · refine CycFr.of_after ?_ h0; exact CycFr.timerStep t _ _ _
+
+theorem CycFr.execPre (cfg : Cfg) (t : Nat) (s : St) (tk : Task) : CycFr t s (execPre cfg s t tk).2 := by
+  refine ⟨?_, fun u _ _ => by rw [execPre_ctl]⟩
+  have := congrArg List.length (execPre_ctl cfg s t tk)
+  simp only [List.length_map] at this
+  omega
+
+
+theorem CycFr.cycleExec (cfg : Cfg) (s : St) (t : Nat) (hr : s.running = some t) : CycFr t s (Pox.Recoco.cycleExec cfg s) := by
+  unfold Pox.Recoco.cycleExec
+  simp only [hr]
+  split
+  · exact CycFr.of_tasks rfl
+  · rename_i tk _
+    have hp : CycFr t s (Pox.Recoco.execPre cfg { s with running := none } t tk).2 :=
+      CycFr.of_after (CycFr.execPre cfg t _ tk) (CycFr.of_tasks rfl)
+    split
+    · rename_i s1 he; rw [he] at hp; exact hp
+    · rename_i e s1 he; rw [he] at hp; exact hp.trans (CycFr.setStatus t s1 .dead)
+    · rename_i r s1 he; rw [he] at hp
+      split
+      · exact hp.trans (CycFr.of_tasks rfl)
+      · exact hp.trans (CycFr.resumeGen cfg t s1 _ r)
+
+/-- one cycle leaves kind, step counter and status of every task other than the one it runs untouched -/
+theorem cycle_ctl_other (cfg : Cfg) (s : St) (hrun : s.running = none) (u : Nat) (hu : s.ready.head? ≠ some u)
+    (hl : u < s.tasks.length) : ((cycle cfg s).tasks.map ctl)[u]? = (s.tasks.map ctl)[u]? := by
+  unfold Pox.Recoco.cycle cyclePop
+  simp only [hrun]
+  split
+  · rename_i t rest _ hrd
+    have hrd' : s.ready = t :: rest := hrd
+    have hne : u ≠ t := by rintro rfl; exact hu (by simp [hrd'])
+    exact (CycFr.cycleExec cfg { s with cycles := s.cycles + 1, running := some t, ready := rest } t rfl).ctl u hne hl
+  · unfold Pox.Recoco.cycleExec
+    simp only [hrun]
+
+theorem iter_running (cfg : Cfg) (s : St) (hrun : s.running = none) : (iter cfg s).running = none := by
+  unfold Pox.Recoco.iter
+  have h1 : (idleStep cfg s).running = none := (HubFr.idleStep cfg s).running.trans hrun
+  split
+  · exact hrun
+  · simp only []
+    split
+    · exact h1
+    · unfold Pox.Recoco.cycle; exact cycleExec_running _ _
+
+theorem Inv.head_live {s : St} (hi : Inv s) {t : Nat} (h : s.ready.head? = some t) : stL s.tasks t = some .live := by
+  refine hi.live t ?_
+  cases hr : s.ready with
+  | nil => simp [hr] at h
+  | cons a r => simp [hr] at h; subst h; simp [places, hr]
+
+/-- a task that is done or dead keeps its step counter and status for ever: it is never run again -/
+theorem dead_stays (cfg : Cfg) : ∀ (n : Nat) {s : St}, Inv s → s.running = none → ∀ (u : Nat) (c : Kind × Nat × Status),
+    (s.tasks.map ctl)[u]? = some c → c.2.2 ≠ .live → ((run cfg n s).tasks.map ctl)[u]? = some c
+  | 0, _, _, _, _, _, hc, _ => hc
+  | n + 1, s, hi, hrun, u, c, hc, hd => by
+    refine dead_stays cfg n (hi.iter cfg) (iter_running cfg s hrun) u c ?_ hd
+    have hidle : ((idleStep cfg s).tasks.map ctl)[u]? = some c := by rw [(HubFr.idleStep cfg s).ctl_eq]; exact hc
+    unfold Pox.Recoco.iter
+    split
+    · exact hc
+    · simp only []
+      split
+      · exact hidle
+      · have hi1 := hi.idleStep cfg
+        have hr1 : (idleStep cfg s).running = none := (HubFr.idleStep cfg s).running.trans hrun
+        rw [cycle_ctl_other cfg _ hr1 u ?_ ?_]
+        · exact hidle
+        · intro hh
+          have := hi1.head_live hh
+          simp only [stL] at this
+          simp only [List.getElem?_map] at hidle
+          cases hk : (idleStep cfg s).tasks[u]? with
+          | none => simp [hk] at hidle
+          | some k =>
+            simp [hk] at hidle this
+            rw [← hidle] at hd
+            exact hd (by simpa [ctl] using this)
+        · have := List.getElem?_eq_some_iff.mp hidle
+          obtain ⟨hlt, _⟩ := this
+          simpa using hlt
+
+/-! ## Part 6: round-robin fairness of the ready deque (programs without sub-task calls) -/
+
+def Y.isAgain : Y → Bool
+  | .again _ _ => true
+  | _ => false
+
+/-- no program calls a sub-task -/
+def NoAgain (cfg : Cfg) : Prop := ∀ prog ∈ cfg.progs, ∀ y ∈ prog, y.isAgain = false
+
+/-- no `AgainTask` exists -/
+def NoSub (s : St) : Prop := ∀ k ∈ s.tasks.map (·.kind), ∀ a p, k ≠ .sub a p
+
+/-- the ready deque only grew at its tail, and no task was created or changed kind -/
+structure RA (s s' : St) : Prop where
+  ready : ∃ post, s'.ready = s.ready ++ post
+  kinds : s'.tasks.map (·.kind) = s.tasks.map (·.kind)
+
+theorem RA.refl (s : St) : RA s s := ⟨⟨[], by simp⟩, rfl⟩
+theorem RA.trans {a b c : St} (h1 : RA a b) (h2 : RA b c) : RA a c := by
+  obtain ⟨p1, e1⟩ := h1.ready
+  obtain ⟨p2, e2⟩ := h2.ready
+  exact ⟨⟨p1 ++ p2, by rw [e2, e1, List.append_assoc]⟩, h2.kinds.trans h1.kinds⟩
+theorem RA.of_after {a b c : St} (h2 : RA b c) (h1 : RA a b) : RA a c := h1.trans h2
+
+theorem RA.same {s s' : St} (hr : s'.ready = s.ready) (ht : s'.tasks = s.tasks) : RA s s' :=
+  ⟨⟨[], by simp [hr]⟩, by rw [ht]⟩
+
+theorem RA.setTask {s : St} {u : Nat} {f : Task → Task} (h : ∀ k, (f k).kind = k.kind) : RA s (setTask s u f) :=
+  ⟨⟨[], by simp⟩, map_modify_of (·.kind) f h _ _⟩
+
+theorem RA.fastSchedule (s : St) (t : Nat) : RA s (fastSchedule s t false) := by
+  unfold Pox.Recoco.fastSchedule
+  split
+  · exact RA.same rfl rfl
+  · exact ⟨⟨[t], by simp⟩, rfl⟩
+
+theorem RA.registerSelect (s : St) (t : Nat) (a b c : List Nat) (d : Option Nat) : RA s (registerSelect s t a b c d) := by
+  unfold Pox.Recoco.registerSelect
+  refine RA.of_after (b := Pox.Recoco.setTask s t _) (RA.same rfl rfl) (RA.setTask ?_)
+  intro _; rfl
+
+theorem RA.doYield (s : St) (t : Nat) (y : Y) (hy : y.isAgain = false) : RA s (doYield s t y) := by
+  cases y with
+  | num n => cases n with
+    | zero => exact ⟨⟨[t], rfl⟩, rfl⟩
+    | succ n => exact RA.registerSelect s t _ _ _ _
+  | block => exact RA.refl s
+  | sleep d => cases d with
+    | none => exact RA.refl s
+    | some d =>
+      simp only [Pox.Recoco.doYield]
+      split
+      · refine RA.of_after (RA.fastSchedule _ t) (RA.setTask ?_); intro _; rfl
+      · exact RA.registerSelect s t _ _ _ _
+  | sleepAbs w =>
+    simp only [Pox.Recoco.doYield]
+    split
+    · refine RA.of_after (RA.fastSchedule _ t) (RA.setTask ?_); intro _; rfl
+    · exact RA.registerSelect s t _ _ _ _
+  | select r w x to => exact RA.registerSelect s t _ _ _ _
+  | recv fd to => refine RA.of_after (RA.registerSelect _ t _ _ _ _) (RA.setTask ?_); intro _; rfl
+  | send fd len to bs => refine RA.of_after (RA.registerSelect _ t _ _ _ _) (RA.setTask ?_); intro _; rfl
+  | exit => exact RA.same rfl rfl
+  | raise n => exact RA.refl s
+  | again k c => simp [Y.isAgain] at hy
+  | cancel j => exact ⟨⟨[t], rfl⟩, rfl⟩
+
+theorem RA.topOut (s : St) (t : Nat) (o : Out) (ho : ∀ y, o = .yield y → y.isAgain = false) : RA s (topOut s t o) := by
+  cases o with
+  | stop => refine RA.setTask ?_; intro _; rfl
+  | raise e => refine RA.setTask ?_; intro _; rfl
+  | yield y => exact RA.doYield s t y (ho y rfl)
+
+theorem RA.timerStep (s : St) (t j pc : Nat) : RA s (timerStep s t j pc) := by
+  unfold Pox.Recoco.timerStep
+  split
+  · exact RA.same rfl rfl
+  · split
+    · refine RA.setTask ?_; intro _; rfl
+    · split
+      · exact RA.same rfl rfl
+      · split
+        · exact RA.doYield s t _ rfl
+        · simp only
+          split
+          · exact RA.same rfl rfl
+          · exact RA.of_after (RA.doYield _ t _ rfl) (RA.same rfl rfl)
+
+theorem genStep_noAgain {n : Nat} {prog : List Y} {pc : Nat} {r : Recv} (hp : ∀ y ∈ prog, y.isAgain = false) :
+    ∀ y, genStep n prog pc r = .yield y → y.isAgain = false := by
+  intro y h
+  unfold genStep at h
+  have key : ∀ o, (match prog[pc]? with
+      | none => Out.stop
+      | some (.raise n) => .raise (.user n)
+      | some (.cancel j) => if j < n then .yield (.cancel j) else .raise .indexError
+      | some y => .yield y) = o → o = .yield y → y.isAgain = false := by
+    intro o ho hy
+    cases hq : prog[pc]? with
+    | none => rw [hq] at ho; subst ho; cases hy
+    | some z =>
+      have hz := hp z (List.mem_of_getElem? hq)
+      rw [hq] at ho
+      cases z <;> simp at ho
+      all_goals first
+        | (subst ho; cases hy; exact hz)
+        | (subst ho; cases hy)
+        | (split at ho <;> (subst ho; first | (cases hy; rfl) | cases hy))
+  split at h
+  · cases h
+  · exact key _ rfl h
+
+theorem RA.execPre (cfg : Cfg) (s : St) (t : Nat) (tk : Task) : RA s (execPre cfg s t tk).2 := by
+  unfold Pox.Recoco.execPre
+  simp only []
+  repeat' split
+  all_goals first
+    | exact RA.refl s
+    | exact RA.same rfl rfl
+    | (refine RA.setTask ?_; intro _; rfl)
+    | (refine RA.of_after (b := Pox.Recoco.setTask s t _) (RA.same rfl rfl) (RA.setTask ?_); intro _; rfl)
+    | (refine RA.of_after (RA.setTask ?_) (RA.same rfl rfl); intro _; rfl)
+    | exact RA.of_after (RA.registerSelect _ t _ _ _ _) (RA.same rfl rfl)
+    | (refine RA.of_after (RA.registerSelect _ t _ _ _ _) (RA.of_after (RA.setTask ?_) (RA.same rfl rfl)); intro _; rfl)
+
+
+theorem RA.resumeGen (cfg : Cfg) (hna : NoAgain cfg) (s : St) (t : Nat) (tk : Task) (r : Recv)
+    (hk : ∀ a p, tk.kind ≠ .sub a p) : RA s (resumeGen cfg s t tk r) := by
+  have h0 : RA s { Pox.Recoco.setTask s t (fun k => { k with pc := k.pc + 1, wake := none }) with
+                   trace := s.trace ++ [.step t tk.pc s.now r tk.wake] } := by
+    refine RA.of_after (b := Pox.Recoco.setTask s t _) (RA.same rfl rfl) (RA.setTask ?_); intro _; rfl
+  unfold Pox.Recoco.resumeGen
+  simp only
+  split
+  · split
+    · refine RA.of_after ?_ h0; exact RA.same rfl rfl
+    · rename_i prog hprog
+      refine RA.of_after ?_ h0
+      exact RA.topOut _ t _ (genStep_noAgain (hna prog (List.mem_of_getElem? hprog)))
+  · rename_i a p hkind; exact absurd hkind (hk a p)
+  · refine RA.of_after ?_ h0; exact RA.timerStep _ t _ _
+
+theorem kind_of_get {l : List Task} {t : Nat} {tk : Task} (h : l[t]? = some tk) : tk.kind ∈ l.map (·.kind) :=
+  List.mem_map_of_mem (List.mem_of_getElem? h)
+
+theorem RA.cycleExec (cfg : Cfg) (hna : NoAgain cfg) (s : St) (hns : NoSub s) : RA s (Pox.Recoco.cycleExec cfg s) := by
+  unfold Pox.Recoco.cycleExec
+  split
+  · exact RA.refl s
+  · rename_i t hr
+    simp only
+    split
+    · exact RA.same rfl rfl
+    · rename_i tk htk
+      have hp : RA s (Pox.Recoco.execPre cfg { s with running := none } t tk).2 :=
+        RA.of_after (RA.execPre cfg _ t tk) (RA.same rfl rfl)
+      split
+      · rename_i s1 he; rw [he] at hp; exact hp
+      · rename_i e s1 he; rw [he] at hp
+        refine RA.of_after (RA.setTask ?_) hp; intro _; rfl
+      · rename_i r s1 he; rw [he] at hp
+        have hp' : RA s s1 := hp
+        split
+        · exact RA.of_after (b := s1) (RA.same rfl rfl) hp'
+        · rename_i tk1 htk1
+          refine RA.of_after (RA.resumeGen cfg hna s1 t tk1 r ?_) hp
+          intro a p hk
+          have hm := kind_of_get htk1
+          rw [hp.kinds] at hm
+          exact hns _ hm a p hk
+
+/-- `k` consecutive cycles -/
+def cycles (cfg : Cfg) : Nat → St → St
+  | 0, s => s
+  | k + 1, s => cycles cfg k (cycle cfg s)
+
+/-- **fair** (programs without sub-task calls): the task at position `k` of the ready deque is at its head after exactly `k`
+cycles — nothing overtakes it, every cycle brings it one place forward. -/
+theorem fair_cycles (cfg : Cfg) (hna : NoAgain cfg) : ∀ (k : Nat) (s : St) (t : Nat), NoSub s → s.running = none →
+    s.ready[k]? = some t →
+    (cycles cfg k s).ready.head? = some t ∧ (cycles cfg k s).running = none ∧ NoSub (cycles cfg k s)
+  | 0, s, t, hns, hrun, hk => ⟨by cases hr : s.ready <;> simp_all [cycles], hrun, hns⟩
+  | k + 1, s, t, hns, hrun, hk => by
+    cases hr : s.ready with
+    | nil => rw [hr] at hk; simp at hk
+    | cons h rest =>
+      rw [hr] at hk; simp only [List.getElem?_cons_succ] at hk
+      have hpop : cyclePop { s with cycles := s.cycles + 1 } = { s with cycles := s.cycles + 1, running := some h, ready := rest } := by
+        simp [cyclePop, hrun, hr]
+      have hra := RA.cycleExec cfg hna { s with cycles := s.cycles + 1, running := some h, ready := rest } hns
+      have hcyc : cycle cfg s = Pox.Recoco.cycleExec cfg { s with cycles := s.cycles + 1, running := some h, ready := rest } := by
+        unfold cycle; rw [hpop]
+      obtain ⟨post, hpost⟩ := hra.ready
+      have hk' : (cycle cfg s).ready[k]? = some t := by
+        rw [hcyc, hpost]
+        have hlt : k < rest.length := (List.getElem?_eq_some_iff.mp hk).1
+        simp only
+        rw [List.getElem?_append_left hlt]; exact hk
+      have hns' : NoSub (cycle cfg s) := by
+        rw [hcyc]; intro kd hkd; rw [hra.kinds] at hkd; exact hns kd hkd
+      have hrun' : (cycle cfg s).running = none := by rw [hcyc]; exact cycleExec_running _ _
+      exact fair_cycles cfg hna k (cycle cfg s) t hns' hrun' hk'
+
+/-! ## Part 7: timers -/
+
+/-- the only ways a timer record changes in one scheduler transition (`now` = clock at a firing) -/
+inductive TStep : TimerSt → TimerSt → Prop
+  | same (tm) : TStep tm tm
+  | cancel (tm) : TStep tm { tm with cancelled := true }
+  | noticed (tm) (hc : tm.cancelled = true) : TStep tm { tm with final := true }
+  | fire (tm) (now : Nat) (hf : tm.final = false) (hc : tm.cancelled = false) :
+      TStep tm { tm with next := now + (if tm.cfg.recurring then tm.cfg.delay else 0), fired := tm.fired + 1,
+                         final := (tm.cfg.selfStop && tm.cfg.falseAt == some tm.fired) || !tm.cfg.recurring }
+
+/-- what is true of every timer record at all times -/
+structure TOK (tm : TimerSt) : Prop where
+  oneShot : tm.cfg.recurring = false → tm.fired ≤ 1 ∧ (tm.fired = 1 → tm.final = true)
+  selfStop : ∀ m, tm.cfg.selfStop = true → tm.cfg.falseAt = some m → tm.fired ≤ m + 1 ∧ (tm.fired = m + 1 → tm.final = true)
+
+theorem TStep.cfg {a b : TimerSt} (h : TStep a b) : b.cfg = a.cfg := by cases h <;> rfl
+
+theorem TStep.ok {a b : TimerSt} (h : TStep a b) (ha : TOK a) : TOK b := by
+  cases h with
+  | same => exact ha
+  | cancel => exact ⟨ha.oneShot, ha.selfStop⟩
+  | noticed hc => exact ⟨fun h => ⟨(ha.oneShot h).1, fun _ => rfl⟩, fun m h1 h2 => ⟨(ha.selfStop m h1 h2).1, fun _ => rfl⟩⟩
+  | fire now hf hc =>
+    refine ⟨?_, ?_⟩
+    · intro hr
+      simp only at hr ⊢
+      have h1 := ha.oneShot hr
+      have : a.fired = 0 := by
+        rcases Nat.lt_or_ge a.fired 1 with h | h
+        · omega
+        · have := h1.2 (by omega); rw [hf] at this; cases this
+      exact ⟨by omega, fun _ => by simp [hr]⟩
+    · intro m hs hm
+      simp only at hs hm ⊢
+      have h1 := ha.selfStop m hs hm
+      have hlt : a.fired ≤ m := by
+        rcases Nat.lt_or_ge a.fired (m + 1) with h | h
+        · omega
+        · have := h1.2 (by omega); rw [hf] at this; cases this
+      refine ⟨by omega, fun he => ?_⟩
+      have : a.fired = m := by omega
+      simp [hs, hm, this]
+
+/-- once cancelled a timer never fires again, and stays cancelled -/
+theorem TStep.cancelled {a b : TimerSt} (h : TStep a b) (ha : a.cancelled = true) : b.cancelled = true ∧ b.fired = a.fired := by
+  cases h with
+  | same => exact ⟨ha, rfl⟩
+  | cancel => exact ⟨rfl, rfl⟩
+  | noticed hc => exact ⟨ha, rfl⟩
+  | fire now hf hc => rw [ha] at hc; cases hc
+
+/-- a stopped timer (it reached its trailing `yield False`) never fires again -/
+theorem TStep.final {a b : TimerSt} (h : TStep a b) (ha : a.final = true) : b.final = true ∧ b.fired = a.fired := by
+  cases h with
+  | same => exact ⟨ha, rfl⟩
+  | cancel => exact ⟨ha, rfl⟩
+  | noticed hc => exact ⟨rfl, rfl⟩
+  | fire now hf hc => rw [ha] at hf; cases hf
+
+theorem TStep.fired_mono {a b : TimerSt} (h : TStep a b) : a.fired ≤ b.fired := by
+  cases h <;> simp
+
+inductive TStar : TimerSt → TimerSt → Prop
+  | refl (a) : TStar a a
+  | tail {a b c} (h1 : TStar a b) (h2 : TStep b c) : TStar a c
+
+theorem TStar.trans {a b c : TimerSt} (h1 : TStar a b) (h2 : TStar b c) : TStar a c := by
+  induction h2 with
+  | refl => exact h1
+  | tail _ hs ih => exact .tail ih hs
+
+theorem TStar.single {a b : TimerSt} (h : TStep a b) : TStar a b := .tail (.refl a) h
+
+theorem TStar.ok {a b : TimerSt} (h : TStar a b) (ha : TOK a) : TOK b := by
+  induction h with
+  | refl => exact ha
+  | tail _ hs ih => exact hs.ok ih
+
+theorem TStar.cfg {a b : TimerSt} (h : TStar a b) : b.cfg = a.cfg := by
+  induction h with
+  | refl => rfl
+  | tail _ hs ih => rw [hs.cfg, ih]
+
+theorem TStar.cancelled {a b : TimerSt} (h : TStar a b) (ha : a.cancelled = true) : b.cancelled = true ∧ b.fired = a.fired := by
+  induction h with
+  | refl => exact ⟨ha, rfl⟩
+  | tail _ hs ih => have := hs.cancelled ih.1; exact ⟨this.1, this.2.trans ih.2⟩
+
+theorem TStar.final {a b : TimerSt} (h : TStar a b) (ha : a.final = true) : b.final = true ∧ b.fired = a.fired := by
+  induction h with
+  | refl => exact ⟨ha, rfl⟩
+  | tail _ hs ih => have := hs.final ih.1; exact ⟨this.1, this.2.trans ih.2⟩
+
+theorem TStar.fired_mono {a b : TimerSt} (h : TStar a b) : a.fired ≤ b.fired := by
+  induction h with
+  | refl => exact Nat.le_refl _
+  | tail _ hs ih => exact Nat.le_trans ih hs.fired_mono
+
+/-- every timer record of `s'` comes from the record with the same index in `s` by `TStep`s; no timer is created or lost -/
+def TFr (s s' : St) : Prop :=
+  s'.timers.length = s.timers.length ∧
+  ∀ (j : Nat) (a b : TimerSt), s.timers[j]? = some a → s'.timers[j]? = some b → TStar a b
+
+theorem TFr.same {s s' : St} (h : s'.timers = s.timers) : TFr s s' :=
+  ⟨by rw [h], fun j a b ha hb => by rw [h, ha] at hb; cases hb; exact .refl a⟩
+
+theorem TFr.refl (s : St) : TFr s s := TFr.same rfl
+
+theorem TFr.trans {a b c : St} (h1 : TFr a b) (h2 : TFr b c) : TFr a c := by
+  refine ⟨h2.1.trans h1.1, fun j x z hx hz => ?_⟩
+  have hlt : j < b.timers.length := by
+    rw [h1.1]; exact (List.getElem?_eq_some_iff.mp hx).1
+  obtain ⟨y, hy⟩ : ∃ y, b.timers[j]? = some y := ⟨_, List.getElem?_eq_getElem hlt⟩
+  exact (h1.2 j x y hx hy).trans (h2.2 j y z hy hz)
+
+theorem TFr.of_after {a b c : St} (h2 : TFr b c) (h1 : TFr a b) : TFr a c := h1.trans h2
+
+/-- one record is rewritten by a single `TStep` -/
+theorem TFr.modify {s s' : St} {j : Nat} {f : TimerSt → TimerSt} (h : s'.timers = s.timers.modify j f)
+    (hf : ∀ a, s.timers[j]? = some a → TStep a (f a)) : TFr s s' := by
+  refine ⟨by rw [h, List.length_modify], fun i a b ha hb => ?_⟩
+  rw [h, List.getElem?_modify, ha] at hb
+  simp only [Option.map_eq_map, Option.map_some, Option.some.injEq] at hb
+  by_cases e : j = i
+  · subst e; simp only [if_true] at hb; subst hb; exact .single (hf a ha)
+  · simp only [e, if_false] at hb; subst hb; exact .refl a
+
+
+theorem TFr.fastSchedule (s : St) (t : Nat) (f : Bool) : TFr s (fastSchedule s t f) := by
+  unfold Pox.Recoco.fastSchedule; split <;> exact TFr.same rfl
+
+theorem TFr.finishSub (s : St) (t p : Nat) : TFr s (finishSub s t p) :=
+  TFr.of_after (TFr.fastSchedule _ p true) (TFr.same rfl)
+
+theorem TFr.cancelTimer (s : St) (j : Nat) : TFr s (cancelTimer s j) :=
+  TFr.modify (f := fun tm => { tm with cancelled := true }) rfl (fun a _ => .cancel a)
+
+theorem TFr.doYield (s : St) (t : Nat) (y : Y) : TFr s (doYield s t y) := by
+  cases y with
+  | num n => cases n <;> exact TFr.same rfl
+  | sleep d => cases d with
+    | none => exact TFr.refl s
+    | some d =>
+      simp only [Pox.Recoco.doYield]
+      split
+      · exact TFr.of_after (TFr.fastSchedule _ t false) (TFr.same rfl)
+      · exact TFr.same rfl
+  | sleepAbs w =>
+    simp only [Pox.Recoco.doYield]
+    split
+    · exact TFr.of_after (TFr.fastSchedule _ t false) (TFr.same rfl)
+    · exact TFr.same rfl
+  | again k c => simp only [Pox.Recoco.doYield]; exact TFr.of_after (TFr.fastSchedule _ _ true) (TFr.same rfl)
+  | cancel j => exact TFr.of_after (b := Pox.Recoco.cancelTimer s j) (TFr.same rfl) (TFr.cancelTimer s j)
+  | _ => exact TFr.same rfl
+
+theorem TFr.topOut (s : St) (t : Nat) (o : Out) : TFr s (topOut s t o) := by
+  cases o with
+  | stop => exact TFr.same rfl
+  | raise e => exact TFr.same rfl
+  | yield y => exact TFr.doYield s t y
+
+theorem TFr.subOut (fx : Bool) (s : St) (t p pc : Nat) (o : Out) : TFr s (subOut fx s t p pc o) := by
+  cases o with
+  | raise e => exact TFr.of_after (TFr.finishSub _ t p) (TFr.same rfl)
+  | stop =>
+    simp only [Pox.Recoco.subOut]
+    split
+    · exact TFr.of_after (TFr.finishSub _ t p) (TFr.same rfl)
+    · exact TFr.finishSub s t p
+  | yield y =>
+    simp only [Pox.Recoco.subOut]
+    split
+    · exact TFr.doYield s t y
+    · split
+      · exact TFr.of_after (TFr.finishSub _ t p) (TFr.same rfl)
+      · exact TFr.of_after (TFr.finishSub _ t p) (TFr.same rfl)
+      · rename_i j _
+        exact TFr.of_after (TFr.finishSub _ t p) (TFr.of_after (b := Pox.Recoco.cancelTimer s j) (TFr.same rfl) (TFr.cancelTimer s j))
+      · exact TFr.refl s
+
+theorem TFr.timerStep (s : St) (t j pc : Nat) : TFr s (timerStep s t j pc) := by
+  unfold Pox.Recoco.timerStep
+  split
+  · exact TFr.same rfl
+  · rename_i tm htm
+    split
+    · exact TFr.same rfl
+    · rename_i hfin
+      split
+      · rename_i hc
+        refine TFr.modify (f := fun m => { m with final := true }) rfl (fun a ha => ?_)
+        rw [htm] at ha; cases ha
+        exact .noticed tm hc
+      · rename_i hc
+        split
+        · exact TFr.doYield s t _
+        · simp only
+          have hf' : tm.final = false := by simpa using hfin
+          have hc' : tm.cancelled = false := by simpa using hc
+          split
+          · rename_i hcond
+            refine TFr.modify (j := j) (f := (fun m => { m with final := true }) ∘
+              (fun m => { m with next := s.now + (if tm.cfg.recurring then tm.cfg.delay else 0), fired := m.fired + 1 })) ?_ ?_
+            · simp only [List.modify_modify_eq]
+            · intro a ha
+              rw [htm] at ha; cases ha
+              have := TStep.fire tm s.now hf' hc'
+              simp only [hcond] at this
+              exact this
+          · rename_i hcond
+            refine TFr.of_after (TFr.doYield _ t _) ?_
+            refine TFr.modify (j := j)
+              (f := fun m => { m with next := s.now + (if tm.cfg.recurring then tm.cfg.delay else 0), fired := m.fired + 1 }) rfl ?_
+            intro a ha
+            rw [htm] at ha; cases ha
+            have := TStep.fire tm s.now hf' hc'
+            have hcf : ((tm.cfg.selfStop && tm.cfg.falseAt == some tm.fired) || !tm.cfg.recurring) = false := by
+              simpa using hcond
+            simp only [hcf] at this
+            rw [← hf'] at this
+            exact this
+
+
+theorem TFr.resumeGen (cfg : Cfg) (s : St) (t : Nat) (tk : Task) (r : Recv) : TFr s (resumeGen cfg s t tk r) := by
+  have h0 : TFr s { Pox.Recoco.setTask s t (fun k => { k with pc := k.pc + 1, wake := none }) with
+                   trace := s.trace ++ [.step t tk.pc s.now r tk.wake] } := TFr.same rfl
+  unfold Pox.Recoco.resumeGen
+  simp only
+  split
+  · split
+    · refine TFr.of_after ?_ h0; exact TFr.same rfl
+    · refine TFr.of_after ?_ h0; exact TFr.topOut _ t _
+  · split
+    · refine TFr.of_after ?_ h0; exact TFr.same rfl
+    · split
+      · refine TFr.of_after ?_ h0
+        refine TFr.of_after (TFr.subOut _ _ t _ _ _) ?_
+        exact TFr.same rfl
+      · refine TFr.of_after ?_ h0; exact TFr.subOut _ _ t _ _ _
+  · refine TFr.of_after ?_ h0; exact TFr.timerStep _ t _ _
+
+theorem execPre_timers (cfg : Cfg) (s : St) (t : Nat) (tk : Task) : (execPre cfg s t tk).2.timers = s.timers := by
+  unfold Pox.Recoco.execPre
+  simp only []
+  repeat' split
+  all_goals rfl
+
+theorem TFr.cycleExec (cfg : Cfg) (s : St) : TFr s (Pox.Recoco.cycleExec cfg s) := by
+  unfold Pox.Recoco.cycleExec
+  split
+  · exact TFr.refl s
+  · rename_i t hr
+    simp only
+    split
+    · exact TFr.same rfl
+    · rename_i tk htk
+      have hp : TFr s (Pox.Recoco.execPre cfg { s with running := none } t tk).2 := TFr.same (execPre_timers cfg _ t tk)
+      split
+      · rename_i s1 he; rw [he] at hp; exact hp
+      · rename_i e s1 he; rw [he] at hp
+        exact TFr.of_after (b := s1) (TFr.same rfl) hp
+      · rename_i r s1 he; rw [he] at hp
+        have hp' : TFr s s1 := hp
+        split
+        · exact TFr.of_after (b := s1) (TFr.same rfl) hp'
+        · exact TFr.of_after (TFr.resumeGen cfg s1 t _ r) hp'
+
+theorem TFr.cycle (cfg : Cfg) (s : St) : TFr s (Pox.Recoco.cycle cfg s) := by
+  unfold Pox.Recoco.cycle
+  refine TFr.of_after (TFr.cycleExec cfg _) ?_
+  unfold Pox.Recoco.cyclePop
+  split <;> exact TFr.same rfl
+
+theorem TFr.iter (cfg : Cfg) (s : St) : TFr s (Pox.Recoco.iter cfg s) := by
+  unfold Pox.Recoco.iter
+  have h1 : TFr s (idleStep cfg s) := TFr.same (HubFr.idleStep cfg s).timers
+  split
+  · exact TFr.refl s
+  · simp only []
+    split
+    · exact h1
+    · exact TFr.of_after (TFr.cycle cfg _) h1
+
+theorem TFr.run (cfg : Cfg) : ∀ (n : Nat) (s : St), TFr s (Pox.Recoco.run cfg n s)
+  | 0, s => TFr.refl s
+  | n + 1, s => TFr.of_after (TFr.run cfg n _) (TFr.iter cfg s)
+
+theorem TOK.init (c : TimerCfg) (next : Nat) : TOK { cfg := c, next := next } :=
+  ⟨fun _ => ⟨by simp, by simp⟩, fun m _ _ => ⟨by simp, by simp⟩⟩
+
+
+/-! ### firings in the trace -/
+
+def fireIdx (t : Nat) : Ev → Option Nat
+  | .fire t' n _ => if t' = t then some n else none
+  | .step _ _ _ _ _ => none
+
+def isSub : Kind → Prop
+  | .sub _ _ => True
+  | _ => False
+
+/-- frame of a transition that does not fire a timer: kinds of existing tasks are kept (new tasks are sub-tasks), the firing
+    counters are kept, the trace gains no `fire` event -/
+structure NF (s s' : St) : Prop where
+  kinds : ∃ ext, s'.tasks.map (·.kind) = s.tasks.map (·.kind) ++ ext ∧ ∀ k ∈ ext, isSub k
+  fired : s'.timers.map (·.fired) = s.timers.map (·.fired)
+  trace : ∀ t, s'.trace.filterMap (fireIdx t) = s.trace.filterMap (fireIdx t)
+
+theorem NF.refl (s : St) : NF s s := ⟨⟨[], by simp, by simp⟩, rfl, fun _ => rfl⟩
+
+theorem NF.trans {a b c : St} (h1 : NF a b) (h2 : NF b c) : NF a c := by
+  obtain ⟨e1, k1, s1⟩ := h1.kinds
+  obtain ⟨e2, k2, s2⟩ := h2.kinds
+  refine ⟨⟨e1 ++ e2, by rw [k2, k1, List.append_assoc], ?_⟩, h2.fired.trans h1.fired, fun t => (h2.trace t).trans (h1.trace t)⟩
+  intro k hk
+  rcases List.mem_append.mp hk with h | h
+  · exact s1 k h
+  · exact s2 k h
+
+theorem NF.of_after {a b c : St} (h2 : NF b c) (h1 : NF a b) : NF a c := h1.trans h2
+
+theorem NF.same {s s' : St} (h1 : s'.tasks = s.tasks) (h2 : s'.timers = s.timers) (h3 : s'.trace = s.trace) : NF s s' :=
+  ⟨⟨[], by simp [h1], by simp⟩, by rw [h2], fun _ => by rw [h3]⟩
+
+theorem NF.setTask {s : St} {u : Nat} {f : Task → Task} (h : ∀ k, (f k).kind = k.kind) : NF s (Pox.Recoco.setTask s u f) :=
+  ⟨⟨[], by simp only [setTask_tasks, List.append_nil]; exact map_modify_of (·.kind) f h _ _, by simp⟩, rfl, fun _ => rfl⟩
+
+theorem NF.fastSchedule (s : St) (t : Nat) (f : Bool) : NF s (Pox.Recoco.fastSchedule s t f) := by
+  unfold Pox.Recoco.fastSchedule; split <;> exact NF.same rfl rfl rfl
+
+theorem NF.registerSelect (s : St) (t : Nat) (a b c : List Nat) (d : Option Nat) : NF s (Pox.Recoco.registerSelect s t a b c d) := by
+  unfold Pox.Recoco.registerSelect
+  refine NF.of_after (b := Pox.Recoco.setTask s t _) (NF.same rfl rfl rfl) (NF.setTask ?_)
+  intro _; rfl
+
+theorem NF.setStatus (s : St) (t : Nat) (x : Status) : NF s (Pox.Recoco.setStatus s t x) := by
+  unfold Pox.Recoco.setStatus; refine NF.setTask ?_; intro _; rfl
+
+theorem NF.finishSub (s : St) (t p : Nat) : NF s (Pox.Recoco.finishSub s t p) :=
+  NF.of_after (NF.fastSchedule _ p true) (NF.setStatus s t .done)
+
+theorem NF.cancelTimer (s : St) (j : Nat) : NF s (Pox.Recoco.cancelTimer s j) :=
+  ⟨⟨[], by simp [Pox.Recoco.cancelTimer], by simp⟩, by
+    simp only [Pox.Recoco.cancelTimer]; refine map_modify_of (fun m : TimerSt => m.fired) _ ?_ _ _; intro _; rfl, fun _ => rfl⟩
+
+theorem NF.doYield (s : St) (t : Nat) (y : Y) : NF s (Pox.Recoco.doYield s t y) := by
+  cases y with
+  | num n => cases n with
+    | zero => exact NF.same rfl rfl rfl
+    | succ n => exact NF.registerSelect s t _ _ _ _
+  | block => exact NF.refl s
+  | sleep d => cases d with
+    | none => exact NF.refl s
+    | some d =>
+      simp only [Pox.Recoco.doYield]
+      split
+      · refine NF.of_after (NF.fastSchedule _ t false) (NF.setTask ?_); intro _; rfl
+      · exact NF.registerSelect s t _ _ _ _
+  | sleepAbs w =>
+    simp only [Pox.Recoco.doYield]
+    split
+    · refine NF.of_after (NF.fastSchedule _ t false) (NF.setTask ?_); intro _; rfl
+    · exact NF.registerSelect s t _ _ _ _
+  | select r w x to => exact NF.registerSelect s t _ _ _ _
+  | recv fd to => refine NF.of_after (NF.registerSelect _ t _ _ _ _) (NF.setTask ?_); intro _; rfl
+  | send fd len to bs => refine NF.of_after (NF.registerSelect _ t _ _ _ _) (NF.setTask ?_); intro _; rfl
+  | exit => exact NF.same rfl rfl rfl
+  | raise n => exact NF.refl s
+  | again k c =>
+    simp only [Pox.Recoco.doYield]
+    refine NF.of_after (NF.fastSchedule _ _ true) ⟨⟨[.sub k t], by simp, by simp [isSub]⟩, rfl, fun _ => rfl⟩
+  | cancel j => exact NF.of_after (b := Pox.Recoco.cancelTimer s j) (NF.same rfl rfl rfl) (NF.cancelTimer s j)
+
+theorem NF.topOut (s : St) (t : Nat) (o : Out) : NF s (Pox.Recoco.topOut s t o) := by
+  cases o with
+  | stop => exact NF.setStatus s t _
+  | raise e => exact NF.setStatus s t _
+  | yield y => exact NF.doYield s t y
+
+theorem NF.subOut (fx : Bool) (s : St) (t p pc : Nat) (o : Out) : NF s (Pox.Recoco.subOut fx s t p pc o) := by
+  have keep : ∀ (f : Task → Task), (∀ k, (f k).kind = k.kind) → NF s (Pox.Recoco.finishSub (Pox.Recoco.setTask s p f) t p) :=
+    fun f hf => NF.of_after (NF.finishSub _ t p) (NF.setTask hf)
+  cases o with
+  | raise e => refine keep _ ?_; intro _; rfl
+  | stop =>
+    simp only [Pox.Recoco.subOut]
+    split
+    · refine keep _ ?_; intro _; rfl
+    · exact NF.finishSub s t p
+  | yield y =>
+    simp only [Pox.Recoco.subOut]
+    split
+    · exact NF.doYield s t y
+    · split
+      · refine keep _ ?_; intro _; rfl
+      · refine keep _ ?_; intro _; rfl
+      · rename_i j _
+        refine NF.of_after (NF.finishSub _ t p) (NF.of_after (b := Pox.Recoco.cancelTimer s j) (NF.setTask ?_) (NF.cancelTimer s j))
+        intro _; rfl
+      · exact NF.refl s
+
+theorem execPre_trace (cfg : Cfg) (s : St) (t : Nat) (tk : Task) : (execPre cfg s t tk).2.trace = s.trace := by
+  unfold Pox.Recoco.execPre
+  simp only []
+  repeat' split
+  all_goals rfl
+
+theorem NF.execPre (cfg : Cfg) (s : St) (t : Nat) (tk : Task) : NF s (Pox.Recoco.execPre cfg s t tk).2 := by
+  refine ⟨⟨[], ?_, by simp⟩, by rw [execPre_timers], fun _ => by rw [execPre_trace]⟩
+  have := execPre_ctl cfg s t tk
+  have e : ∀ l : List Task, l.map (·.kind) = (l.map ctl).map (·.1) := by intro l; simp [ctl]
+  rw [List.append_nil, e, e, this]
+
+
+/-- the firings recorded in the trace are exactly the ones counted in the timer records -/
+structure FI (s : St) : Prop where
+  uniq : ∀ t t' j, kdL s.tasks t = some (.timer j) → kdL s.tasks t' = some (.timer j) → t = t'
+  count : ∀ t j tm, kdL s.tasks t = some (.timer j) → s.timers[j]? = some tm →
+            s.trace.filterMap (fireIdx t) = List.range tm.fired
+  others : ∀ t, (∀ j, kdL s.tasks t ≠ some (.timer j)) → s.trace.filterMap (fireIdx t) = []
+
+theorem kdL_of_kinds {l l' : List Task} {ext : List Kind} (h : l'.map (·.kind) = l.map (·.kind) ++ ext) (hs : ∀ k ∈ ext, isSub k)
+    (t : Nat) : (t < l.length → kdL l' t = kdL l t) ∧ (l.length ≤ t → ∀ j, kdL l' t ≠ some (.timer j)) := by
+  have e : ∀ (m : List Task) (u : Nat), kdL m u = (m.map (·.kind))[u]? := by intro m u; simp [kdL]
+  refine ⟨fun hlt => ?_, fun hge j hk => ?_⟩
+  · rw [e, e, h, List.getElem?_append_left (by simpa using hlt)]
+  · rw [e, h, List.getElem?_append_right (by simpa using hge)] at hk
+    have := hs _ (List.mem_of_getElem? hk)
+    exact this
+
+theorem FI.nf {s s' : St} (h : FI s) (hf : NF s s') : FI s' := by
+  obtain ⟨ext, hk, hs⟩ := hf.kinds
+  have key := kdL_of_kinds hk hs
+  have back : ∀ t j, kdL s'.tasks t = some (.timer j) → kdL s.tasks t = some (.timer j) := by
+    intro t j ht
+    by_cases hlt : t < s.tasks.length
+    · rw [← (key t).1 hlt]; exact ht
+    · exact absurd ht ((key t).2 (by omega) j)
+  refine ⟨fun t t' j h1 h2 => h.uniq t t' j (back t j h1) (back t' j h2), ?_, ?_⟩
+  · intro t j tm' ht htm
+    have hfm : (s'.timers.map (·.fired))[j]? = some tm'.fired := by simp [htm]
+    rw [hf.fired] at hfm
+    simp only [List.getElem?_map] at hfm
+    cases htm0 : s.timers[j]? with
+    | none => simp [htm0] at hfm
+    | some tm =>
+      simp [htm0] at hfm
+      rw [hf.trace, h.count t j tm (back t j ht) htm0, hfm]
+  · intro t hnt
+    rw [hf.trace]
+    refine h.others t (fun j hj => ?_)
+    by_cases hlt : t < s.tasks.length
+    · exact hnt j (by rw [(key t).1 hlt]; exact hj)
+    · simp only [kdL] at hj
+      rw [List.getElem?_eq_none (by omega)] at hj; cases hj
+
+/-- timer `j`, run by task `t`, fires -/
+theorem FI.fire {s : St} (h : FI s) {t j : Nat} {tm : TimerSt} (ht : kdL s.tasks t = some (.timer j)) (htm : s.timers[j]? = some tm)
+    (x : Nat) :
+    FI { s with timers := s.timers.modify j (fun m => { m with next := x, fired := m.fired + 1 }),
+                trace := s.trace ++ [.fire t tm.fired s.now] } := by
+  refine ⟨h.uniq, ?_, ?_⟩
+  · intro u i um hu hum
+    simp only [List.getElem?_modify] at hum
+    simp only [List.filterMap_append, List.filterMap_cons, List.filterMap_nil, fireIdx]
+    by_cases e : j = i
+    · subst e
+      have : u = t := h.uniq u t j hu ht
+      subst this
+      rw [htm] at hum; simp at hum; subst hum
+      simp [h.count u j tm hu htm, List.range_succ]
+    · cases hi : s.timers[i]? with
+      | none => simp [hi] at hum
+      | some im =>
+        simp [hi, e] at hum; subst hum
+        have hne : ¬ t = u := by
+          intro e'; subst e'
+          rw [ht] at hu; simp at hu; exact e hu
+        simp [hne, h.count u i im hu hi]
+  · intro u hnu
+    have hne : ¬ t = u := by intro e'; subst e'; exact hnu j ht
+    simp [List.filterMap_append, fireIdx, hne, h.others u hnu]
+
+theorem map_fired_modify (l : List TimerSt) (j : Nat) (f : TimerSt → TimerSt) (h : ∀ m, (f m).fired = m.fired) :
+    (l.modify j f).map (·.fired) = l.map (·.fired) := map_modify_of (fun m : TimerSt => m.fired) f h l j
+
+theorem map_kind_modify (l : List Task) (u : Nat) (f : Task → Task) (h : ∀ k, (f k).kind = k.kind) :
+    (l.modify u f).map (·.kind) = l.map (·.kind) := map_modify_of (fun k : Task => k.kind) f h l u
+
+theorem FI.timerStep {s : St} (h : FI s) {t j : Nat} (ht : kdL s.tasks t = some (.timer j)) (pc : Nat) :
+    FI (Pox.Recoco.timerStep s t j pc) := by
+  unfold Pox.Recoco.timerStep
+  split
+  · exact h.nf (NF.same rfl rfl rfl)
+  · rename_i tm htm
+    split
+    · exact h.nf (NF.setStatus s t _)
+    · split
+      · refine h.nf ⟨⟨[], by simp, by simp⟩, ?_, fun _ => rfl⟩
+        refine map_fired_modify _ _ _ ?_; intro _; rfl
+      · split
+        · exact h.nf (NF.doYield s t _)
+        · simp only
+          have hf := h.fire ht htm (s.now + (if tm.cfg.recurring then tm.cfg.delay else 0))
+          split
+          · refine hf.nf ⟨⟨[], by simp, by simp⟩, ?_, fun _ => rfl⟩
+            refine map_fired_modify _ _ _ ?_; intro _; rfl
+          · exact hf.nf (NF.doYield _ t _)
+
+theorem FI.resumeGen (cfg : Cfg) {s : St} (h : FI s) {t : Nat} {tk : Task} (htk : s.tasks[t]? = some tk) (r : Recv) :
+    FI (Pox.Recoco.resumeGen cfg s t tk r) := by
+  have n0 : NF s { Pox.Recoco.setTask s t (fun k => { k with pc := k.pc + 1, wake := none }) with
+                   trace := s.trace ++ [.step t tk.pc s.now r tk.wake] } := by
+    refine ⟨⟨[], ?_, by simp⟩, rfl, fun u => by simp [List.filterMap_append, fireIdx]⟩
+    simp only [setTask_tasks, List.append_nil]
+    refine map_kind_modify _ _ _ ?_; intro _; rfl
+  have h0 := h.nf n0
+  unfold Pox.Recoco.resumeGen
+  simp only
+  split
+  · split
+    · exact h0.nf (NF.same rfl rfl rfl)
+    · exact h0.nf (NF.topOut _ t _)
+  · split
+    · exact h0.nf (NF.same rfl rfl rfl)
+    · split
+      · refine h0.nf (NF.of_after (NF.subOut _ _ t _ _ _) (NF.setTask ?_)); intro _; rfl
+      · exact h0.nf (NF.subOut _ _ t _ _ _)
+  · rename_i j hkind
+    refine FI.timerStep h0 ?_ _
+    simp only [setTask_tasks, kdL_modify, implies_true]
+    rw [kdL_of_get htk, hkind]
+
+theorem FI.cycleExec (cfg : Cfg) {s : St} (h : FI s) : FI (Pox.Recoco.cycleExec cfg s) := by
+  unfold Pox.Recoco.cycleExec
+  split
+  · exact h
+  · rename_i t hr
+    simp only
+    split
+    · exact h.nf (NF.same rfl rfl rfl)
+    · rename_i tk htk
+      have hp : FI (Pox.Recoco.execPre cfg { s with running := none } t tk).2 :=
+        (h.nf (NF.same (s' := { s with running := none }) rfl rfl rfl)).nf (NF.execPre cfg _ t tk)
+      split
+      · rename_i s1 he; rw [he] at hp; exact hp
+      · rename_i e s1 he; rw [he] at hp; exact FI.nf (s := s1) hp (NF.setStatus s1 t .dead)
+      · rename_i r s1 he; rw [he] at hp
+        have hp' : FI s1 := hp
+        split
+        · exact hp'.nf (NF.same rfl rfl rfl)
+        · rename_i tk1 htk1; exact hp'.resumeGen cfg htk1 r
+
+theorem FI.iter (cfg : Cfg) {s : St} (h : FI s) : FI (Pox.Recoco.iter cfg s) := by
+  have hub : NF s (idleStep cfg s) := by
+    have hf := HubFr.idleStep cfg s
+    refine ⟨⟨[], ?_, by simp⟩, by rw [hf.timers], fun _ => by rw [hf.trace]⟩
+    have e : ∀ l : List Task, l.map (·.kind) = (l.map eraseRv).map (·.kind) := by intro l; simp [eraseRv]
+    rw [List.append_nil, e, e s.tasks, hf.tasks]
+  have h1 := h.nf hub
+  unfold Pox.Recoco.iter
+  split
+  · exact h
+  · simp only []
+    split
+    · exact h1
+    · unfold Pox.Recoco.cycle
+      refine FI.cycleExec cfg (h1.nf ?_)
+      unfold Pox.Recoco.cyclePop
+      split <;> exact NF.same rfl rfl rfl
+
+theorem FI.run (cfg : Cfg) : ∀ (n : Nat) {s : St}, FI s → FI (Pox.Recoco.run cfg n s)
+  | 0, _, h => h
+  | n + 1, _, h => FI.run cfg n (h.iter cfg)
+
+
+theorem initSt_kind (t0 : Nat) (tasks : List Nat) (timers : List TimerCfg) (ss rs : List (Option Nat)) (t j : Nat) :
+    kdL (initSt t0 tasks timers ss rs).tasks t = some (.timer j) ↔ (t = tasks.length + j ∧ j < timers.length) := by
+  simp only [kdL, initSt, List.getElem?_append, List.length_map, List.getElem?_map]
+  split
+  · rename_i hlt
+    cases h : tasks[t]? <;> simp <;> omega
+  · rename_i hge
+    cases h : (List.range timers.length)[t - tasks.length]? with
+    | none =>
+      simp
+      intro h1
+      have hn := List.getElem?_eq_none_iff.mp h
+      simp at hn
+      omega
+    | some i =>
+      have := List.getElem?_eq_some_iff.mp h
+      obtain ⟨hlt, hv⟩ := this
+      simp at hlt hv
+      simp
+      omega
+
+theorem FI.init (t0 : Nat) (tasks : List Nat) (timers : List TimerCfg) (ss rs : List (Option Nat)) :
+    FI (initSt t0 tasks timers ss rs) := by
+  refine ⟨?_, ?_, ?_⟩
+  · intro t t' j h1 h2
+    rw [initSt_kind] at h1 h2; omega
+  · intro t j tm _ htm
+    have : tm.fired = 0 := by
+      simp only [initSt, List.getElem?_map] at htm
+      cases h : timers[j]? with
+      | none => simp [h] at htm
+      | some c => simp [h] at htm; rw [← htm]
+    simp [initSt, this]
+  · intro t _; simp [initSt]
+
+theorem TOK.initSt (t0 : Nat) (tasks : List Nat) (timers : List TimerCfg) (ss rs : List (Option Nat)) (j : Nat) (tm : TimerSt)
+    (h : (Pox.Recoco.initSt t0 tasks timers ss rs).timers[j]? = some tm) :
+    TOK tm ∧ tm.cancelled = false ∧ (∃ c, timers[j]? = some c ∧ tm.cfg = c) := by
+  simp only [Pox.Recoco.initSt, List.getElem?_map] at h
+  cases hc : timers[j]? with
+  | none => simp [hc] at h
+  | some c => simp [hc] at h; subst h; exact ⟨TOK.init c _, rfl, c, rfl, rfl⟩
+
+
+/-! ### kinds never change -/
+
+/-- tasks are only ever appended; existing tasks keep their kind -/
+def KP (s s' : St) : Prop := ∃ ext, s'.tasks.map (·.kind) = s.tasks.map (·.kind) ++ ext
+
+theorem KP.refl (s : St) : KP s s := ⟨[], by simp⟩
+theorem KP.trans {a b c : St} (h1 : KP a b) (h2 : KP b c) : KP a c := by
+  obtain ⟨e1, k1⟩ := h1; obtain ⟨e2, k2⟩ := h2
+  exact ⟨e1 ++ e2, by rw [k2, k1, List.append_assoc]⟩
+theorem KP.of_after {a b c : St} (h2 : KP b c) (h1 : KP a b) : KP a c := h1.trans h2
+theorem KP.of_nf {s s' : St} (h : NF s s') : KP s s' := let ⟨e, k, _⟩ := h.kinds; ⟨e, k⟩
+theorem KP.same {s s' : St} (h : s'.tasks = s.tasks) : KP s s' := ⟨[], by simp [h]⟩
+
+theorem KP.timerStep (s : St) (t j pc : Nat) : KP s (Pox.Recoco.timerStep s t j pc) := by
+  unfold Pox.Recoco.timerStep
+  split
+  · exact KP.same rfl
+  · split
+    · exact KP.of_nf (NF.setStatus s t _)
+    · split
+      · exact KP.same rfl
+      · split
+        · exact KP.of_nf (NF.doYield s t _)
+        · simp only
+          split
+          · exact KP.same rfl
+          · exact KP.of_after (KP.of_nf (NF.doYield _ t _)) (KP.same rfl)
+
+theorem KP.resumeGen (cfg : Cfg) (s : St) (t : Nat) (tk : Task) (r : Recv) : KP s (Pox.Recoco.resumeGen cfg s t tk r) := by
+  have h0 : KP s { Pox.Recoco.setTask s t (fun k => { k with pc := k.pc + 1, wake := none }) with
+                   trace := s.trace ++ [.step t tk.pc s.now r tk.wake] } := by
+    refine ⟨[], ?_⟩
+    simp only [setTask_tasks, List.append_nil]
+    refine map_kind_modify _ _ _ ?_; intro _; rfl
+  unfold Pox.Recoco.resumeGen
+  simp only
+  split
+  · split
+    · refine KP.of_after ?_ h0; exact KP.same rfl
+    · refine KP.of_after ?_ h0; exact KP.of_nf (NF.topOut _ t _)
+  · split
+    · refine KP.of_after ?_ h0; exact KP.same rfl
+    · split
+      · refine KP.of_after ?_ h0
+        refine KP.of_after (KP.of_nf (NF.subOut _ _ t _ _ _)) (KP.of_nf (NF.setTask ?_)); intro _; rfl
+      · refine KP.of_after ?_ h0; exact KP.of_nf (NF.subOut _ _ t _ _ _)
+  · refine KP.of_after ?_ h0; exact KP.timerStep _ t _ _
+
+theorem KP.cycleExec (cfg : Cfg) (s : St) : KP s (Pox.Recoco.cycleExec cfg s) := by
+  unfold Pox.Recoco.cycleExec
+  split
+  · exact KP.refl s
+  · rename_i t hr
+    simp only
+    split
+    · exact KP.same rfl
+    · rename_i tk htk
+      have hp : KP s (Pox.Recoco.execPre cfg { s with running := none } t tk).2 :=
+        KP.of_after (KP.of_nf (NF.execPre cfg _ t tk)) (KP.same rfl)
+      split
+      · rename_i s1 he; rw [he] at hp; exact hp
+      · rename_i e s1 he; rw [he] at hp
+        have hp' : KP s s1 := hp
+        exact KP.of_after (KP.of_nf (NF.setStatus s1 t .dead)) hp'
+      · rename_i r s1 he; rw [he] at hp
+        have hp' : KP s s1 := hp
+        split
+        · exact KP.of_after (b := s1) (KP.same rfl) hp'
+        · exact KP.of_after (KP.resumeGen cfg s1 t _ r) hp'
+
+theorem KP.iter (cfg : Cfg) (s : St) : KP s (Pox.Recoco.iter cfg s) := by
+  have h1 : KP s (idleStep cfg s) := by
+    have hf := HubFr.idleStep cfg s
+    refine ⟨[], ?_⟩
+    have e : ∀ l : List Task, l.map (·.kind) = (l.map eraseRv).map (·.kind) := by intro l; simp [eraseRv]
+    rw [List.append_nil, e, e s.tasks, hf.tasks]
+  unfold Pox.Recoco.iter
+  split
+  · exact KP.refl s
+  · simp only []
+    split
+    · exact h1
+    · unfold Pox.Recoco.cycle
+      refine KP.of_after (KP.cycleExec cfg _) (KP.of_after ?_ h1)
+      unfold Pox.Recoco.cyclePop
+      split <;> exact KP.same rfl
+
+theorem KP.run (cfg : Cfg) : ∀ (n : Nat) (s : St), KP s (Pox.Recoco.run cfg n s)
+  | 0, s => KP.refl s
+  | n + 1, s => KP.of_after (KP.run cfg n _) (KP.iter cfg s)
+
+/-- a task keeps its kind for ever -/
+theorem kind_stable (cfg : Cfg) (n : Nat) (s : St) (t : Nat) (k : Kind) (h : kdL s.tasks t = some k) :
+    kdL (Pox.Recoco.run cfg n s).tasks t = some k := by
+  obtain ⟨ext, he⟩ := KP.run cfg n s
+  have e : ∀ (m : List Task) (u : Nat), kdL m u = (m.map (·.kind))[u]? := by intro m u; simp [kdL]
+  rw [e] at h ⊢
+  have hlt : t < (s.tasks.map (·.kind)).length := (List.getElem?_eq_some_iff.mp h).1
+  rw [he, List.getElem?_append_left hlt]; exact h
 
 end Pox.Recoco
